@@ -183,10 +183,7 @@ func newPacker(g *arena.Gamma, root string, o pOpts) *slug.Packer {
 func runPackCase(base string, c *pCase) (obs *pObs, infra string) {
 	g := arena.NewGamma(c.Gamma, packTokens(c), [][2]string{{"src", "srcx"}, {"ext", "ext2"}, {"a", "ab"}, {"rl", "rl2"}}, true)
 	if len(c.Lines) > 0 || hasRuleFile(c.Tree) {
-		g.RuleText = []byte(strings.Join(c.Lines, "\n"))
-		if len(c.Lines) > 0 {
-			g.RuleText = append(g.RuleText, '\n')
-		}
+		g.RuleText = ruleText(c.Lines)
 	}
 	root, err := os.MkdirTemp(base, "p-")
 	if err != nil {
@@ -292,6 +289,11 @@ func runPackCase(base string, c *pCase) (obs *pObs, infra string) {
 		}
 	}()
 	return obs, ""
+}
+
+// ruleText renders a rule file: a leading comment line keeps it distinguishable from an empty file.
+func ruleText(lines []string) []byte {
+	return []byte("# rules generated from the specification\n" + strings.Join(lines, "\n") + "\n")
 }
 
 func hasRuleFile(t []arena.PN) bool {
@@ -520,10 +522,7 @@ func packMain() int {
 				for _, e := range c.Out {
 					if e.K == "f" {
 						if e.C == arena.RuleFileC {
-							want += int64(len(strings.Join(c.Lines, "\n")))
-							if len(c.Lines) > 0 {
-								want++
-							}
+							want += int64(len(ruleText(c.Lines)))
 						} else {
 							want += int64(len(arena.Content(e.C)))
 						}
